@@ -117,10 +117,11 @@ CHECKS = {
         "any schedule, has for the pins it owns the coefficients of the original solver (split_behaves). Closed under the global context. "
         "The tie runs split() of /repo on random graphs incl. cycles, stars whose hub is declared last, multi-links and isolated "
         "structures, compares the partition as a set of sets and each returned solver's matrix with the model's solve of that part."
-        " Further streams: split() after a structure was cut, added again and wired elsewhere; parametric parts whose FIRST solve is argument-less, with defaults changed after add_param. split() is also taken after remove_structure. Two refused links (occupied pin; structure outside the solver) are attempted right before split(). Some components are placed sub-solvers (exposures declared in reverse order). After its parts have been solved the original is solved again and must answer as before; part results are read only after all solves.",
+        " Further streams: split() after a structure was cut, added again and wired elsewhere; parametric parts whose FIRST solve is argument-less, with defaults changed after add_param. split() is also taken after remove_structure. Two refused links (occupied pin; structure outside the solver) are attempted right before split(). Some components are placed sub-solvers (exposures declared in reverse order). After its parts have been solved the original is solved again and must answer as before; part results are read only after all solves."
+        " On every run harness/translate_split.py reads the CURRENT source of Solver.split (sets as lists up to membership, in-place add, list.remove by equality) and coq/templates/SplitSrcProof.v proves the sets it builds equal, set by set and in order, to Split.split_sets for every adjacency and structure list (3 theorems, closed).",
    note="Trusted: Coq kernel + vm_compute; Bignums primitives for the executed instance; model Split.v tied by sampled correspondence; "
         "harness. Follows the fixed code (F15). The 'defaults are handed over' half is checked in the C05/C06 parameter streams.",
-   technique="Coq proof (loop invariant, all graphs and orders) + vm_compute correspondence of partitions and part matrices", design="§5 C12"),
+   technique="Coq proof (loop invariant, all graphs and orders) + vm_compute correspondence of partitions and part matrices + source-to-Gallina translation of Solver.split proved equal to Split.split_sets on every run", design="§5 C12"),
  "C13": dict(
    text="Proof: props/C13.v. For every matrix, size and number of modes the expanded matrix's coefficient between (p, mode i) and "
         "(q, mode i') is the single-mode coefficient when i = i' and zero otherwise (expand_coeff), the index layout i*N+n is injective "
